@@ -269,7 +269,7 @@ func CursorLongHarness() mc.Harness {
 				for _, p := range [][2]string{{"asc", "asc"}, {"desc", "zigzag"}, {"zigzag", "desc"}, {"inside", "inside"}, {"asc", "desc"}} {
 					cfgs = append(cfgs, LongCfg{Beta: b, N: mc.Pick(r, 16, 24), Fill: p[0], Drain: p[1], Cursor: true})
 					devs = append(devs, 1)
-					cfgs = append(cfgs, LongCfg{Beta: b, N: mc.Pick(r, 64, 160), Fill: p[0], Drain: p[1], Cursor: true})
+					cfgs = append(cfgs, LongCfg{Beta: b, N: mc.Pick(r, 140, 300), Fill: p[0], Drain: p[1], Cursor: true})
 					devs = append(devs, 0)
 				}
 			}
@@ -282,7 +282,7 @@ func CursorLongHarness() mc.Harness {
 			})
 			r.AddEval(execs, steps, execs, execs-int64(len(cfgs)))
 			r.Bound("families", len(cfgs))
-			r.Rule("the long-history choice tree of lib/streeh (fill, drain, refill; every single deviation at N=16/24, none at N=64/160) with the cursor oracle after every step: Cursor(k) for every present key and for absent keys, HasNext/HasPrev, Next steps, full Next/Prev walks from both ends and the middle; non-trivial = executions with a deviation")
+			r.Rule("the long-history choice tree of lib/streeh (fill, drain, refill; every single deviation at N=16/24, none at N=140/300: spines of more than 128 nodes at beta=1000) with the cursor oracle after every step: Cursor(k) for every present key and for absent keys, HasNext/HasPrev, Next steps, full Next/Prev walks from both ends and the middle; non-trivial = executions with a deviation")
 			r.Sample(map[string]any{"beta": 250, "history": "Add 1..13 ascending, Remove 1,2,3,4,5,6,8, then Cursor(13)"})
 		},
 		Replay: func(c mc.Case) *mc.Failure {
